@@ -188,6 +188,7 @@ def rule_g5(repo, col):
         return any(s == src and t == truth for s, t, _ in p.conds)
 
     n_upd = 0
+    n_refuse = 0
     problems = []
     for p in paths:
         upds = [(args, node) for fn, args, node in p.calls if fn == "self._update"]
@@ -199,10 +200,14 @@ def rule_g5(repo, col):
             if p.end != "raise":
                 problems.append(("the FALSE key cannot be extended: must raise", p.stmts[-1]))
             continue
-        if any(("!= 'disj'" in s and t) for s, t, _ in p.conds):
+        disj_test = [(s, t) for s, t, _ in p.conds if s.endswith("== 'disj'")]
+        if disj_test and not disj_test[0][1]:
+            n_refuse += 1
             if p.end != "raise":
                 problems.append(("a non-disjunctive node must be refused", p.stmts[-1]))
             continue
+        if upds and not (disj_test and disj_test[0][1]):
+            problems.append(("the node type must be checked to be 'disj' before the node is updated", f.node))
         if upds:
             n_upd += 1
             args, node = upds[-1]
@@ -218,6 +223,8 @@ def rule_g5(repo, col):
             problems.append(("add_disjunct can fall off its end (returns None = FALSE key)", f.node))
     if n_upd < 2:
         raise AnalysisError("add_disjunct: fewer than 2 updating paths found")
+    if n_refuse < 1:
+        problems.append(("add_disjunct no longer refuses non-disjunctive nodes (a conjunction or atom would be overwritten by a disjunction)", f.node))
     if problems:
         seen = set()
         for msg, node in problems:
